@@ -1867,6 +1867,13 @@ def _m_tri(lower):
     return m
 
 
+def m_t(t, it, ctx, a, k):
+    if len(t.dims) > 2:
+        raise PyRaise(VExc("RuntimeError", "t() expects a tensor with <= 2 dimensions"))
+    return t if len(t.dims) < 2 else transpose(ctx, t, 0, 1)
+
+
+METHODS["t"] = m_t
 METHODS["tril"] = _m_tri(True)
 METHODS["triu"] = _m_tri(False)
 for _n in ("add", "sub", "mul", "div", "pow", "neg", "abs", "exp", "log", "sqrt", "clamp", "clamp_min", "clamp_max", "square",
